@@ -25,7 +25,7 @@ MANIFEST = {
              "of the callable). Hypotheses named in the theorems: no exception escapes run(on_error='return') (C09) and no Ctrl-C "
              "(`interrupt_breaks_tally` witnesses that a KeyboardInterrupt makes n_total count doctests that never ran, exit status 0). "
              "The keyword list of is_disabled is regenerated from the code and used by the model. Observed: generated modules with "
-             "by-construction outcomes, every order of the 8 kinds up to length 3 (4 thorough) and random up to 12, x command "
+             "by-construction outcomes, every order of 12 kinds (the 8 of the property + fail-before-anything-ran: compile-only error in the first executed part, malformed directive; some modules raise on import + the doctest ends itself at run time: pytest.skip() / ExitTestException) up to length 3 (4 thorough) and random up to 12, x command "
              "{all, list, unique name, bare callname, zero-arg name, unknown name, zero-all} x verbosity x style x --options, through "
              "runner.doctest_module, xdoctest.__main__.main and `python -m xdoctest` subprocesses: run_summary, TRACE of executed "
              "doctests, summary line, verdict lines, list output and exit status, three ways (expectation / model / code)."),
@@ -34,9 +34,9 @@ MANIFEST = {
              "(parse_doctestables) is an input of the model (C07); CPython's exit status 1 for an uncaught exception."),
     'technique': 'Lean 4 proof (induction over the example list) + differential correspondence on generated modules',
 }
-RULE = ('modules generated from 8 by-construction kinds (pass, fail by output, fail by exception, all skipped, partly skipped, expected '
+RULE = ('modules generated from 12 by-construction kinds (incl. a doctest calling pytest.skip() / raising ExitTestException at run time) (pass, fail by output, fail by exception, fail BEFORE any part ran: compile-only error in the first executed part / malformed directive, all skipped, partly skipped, expected '
         'exception, force-disabled (10 spellings x passing/failing body), comment only) + near-miss/option-sensitive kinds, two-block '
-        'callables, methods, functions without doctest; EVERY order of the 8 kinds up to length 3 (quick) / 4 (thorough) and random '
+        'callables, methods, functions without doctest; EVERY order of the 12 kinds up to length 3 (quick) / 4 (thorough) and random '
         'modules up to 12 callables; x command {all, list, every unique name (<=4), bare callname, zero-arg function, unknown, zero-all} x '
         'verbosity {0,1,3 / --quiet --silent} x style {google, freeform, auto} x 8 option sets; channels: doctest_module (in-process), '
         '__main__.main (in-process, exit status + printed summary), python -m xdoctest (subprocess). non-trivial = the command runs >= 2 '
@@ -49,18 +49,30 @@ FLAG_SETS = [['--verbose', '0'], ['--verbose', '1'], ['--quiet'], ['--silent'], 
 
 
 # ------------------------------------------------------------------ case plans
+# the by-construction outcome set enumerated in every order: the 8 kinds of the property text, the two
+# "fails before anything ran" kinds (compile-only error in the first executed part, malformed directive) and the two
+# "ends itself at run time" kinds (the doctest calls pytest.skip() / raises ExitTestException: passed, later ones run)
+ALPHABET = G.KINDS + G.EARLY_KINDS + G.EXIT_KINDS
+# random modules: additionally the near-miss / option-sensitive kinds and `pyskip` (first line `>>> # pytest.skip`:
+# force-disabled for pytest ONLY, so the native runner must run it)
+NATIVE_KINDS = G.KINDS + G.EXTRA_KINDS + G.EARLY_KINDS + G.EXIT_KINDS + ['pyskip']
+
+
 def exhaustive_items(maxlen):
     out = []
     for n in range(1, maxlen + 1):
-        for t in itertools.product(range(len(G.KINDS)), repeat=n):
+        for t in itertools.product(range(len(ALPHABET)), repeat=n):
             out.append(t)
     return out
 
 
 def spec_of_kinds(name, t, salt):
     rng = random.Random('c10x:%s:%d' % (name, salt))
-    items = [(G.KINDS[k], rng.randrange(G.n_disabled_variants())) for k in t]
-    return G.make_spec(name, items, rng=rng)
+    items = [(ALPHABET[k], rng.randrange(G.n_disabled_variants())) for k in t]
+    spec = G.make_spec(name, items, rng=rng)
+    if rng.random() < 0.04:
+        spec['import_error'] = True      # the module under test raises when imported
+    return spec
 
 
 def names_for(spec, style, rng, limit=4):
@@ -84,7 +96,9 @@ def plan_cases(spec, rng, quick, exhaustive):
     """list of cases for one module"""
     style = 'google' if exhaustive and rng.random() < 0.6 else rng.choice(['google', 'freeform', 'auto'])
     optstr, opts = (None, {}) if (exhaustive and rng.random() < 0.8) else rng.choice(G.OPTION_SETS)
-    cmds = ['all', 'list'] + names_for(spec, style, rng)
+    # exhaustive modules of three or more callables: two named doctests are enough (the smaller modules and the
+    # random stream name up to four), which keeps the quick tier within its time budget
+    cmds = ['all', 'list'] + names_for(spec, style, rng, 2 if (exhaustive and quick and len(spec['funcs']) >= 3) else 4)
     inv = G.inventory(spec, style)
     if inv:
         cmds.append(rng.choice(inv)['callname'])
@@ -95,10 +109,14 @@ def plan_cases(spec, rng, quick, exhaustive):
         cmds.append(rng.choice(zs))
     if rng.random() < 0.1:
         cmds.append(rng.choice(['zero-all', 'zero', 'zero_all', 'zero-args']))
+    if rng.random() < 0.15:
+        cmds.append('dump')          # gathers like `all`, executes nothing, exit status 0
     cases = []
     for cmd in cmds:
         v = rng.choice([0, 0, 1, 3] if quick else [-1, 0, 1, 2, 3])
-        cases.append({'channel': 'api', 'cmd': cmd, 'style': style, 'verbose': v, 'optstr': optstr, 'opts': opts})
+        cases.append({'channel': 'api', 'cmd': cmd, 'style': style, 'verbose': v, 'optstr': optstr, 'opts': opts,
+                      'noconfig': optstr is None and rng.random() < 0.3,
+                      'ident': rng.choice(['path', 'path', 'colon', 'path' if spec.get('import_error') else 'module'])})
         if cmd in ('all', 'list') or rng.random() < 0.4:
             cases.append({'channel': 'main', 'cmd': cmd if not (cmd == 'all' and rng.random() < 0.3) else None, 'style': style,
                           'flags': rng.choice(FLAG_SETS), 'optstr': optstr, 'opts': opts})
@@ -131,10 +149,10 @@ def _worker(args):
         if mode == 'exhaustive':
             for i, t in enumerate(exhaustive_items(params['maxlen'])):
                 if i % nshards == shard:
-                    specs.append(spec_of_kinds('x%d_%s' % (shard, ''.join(map(str, t))), t, seed))
+                    specs.append(spec_of_kinds('x%d_%s' % (shard, '_'.join(map(str, t))), t, seed))
         else:
             for i in range(params['count']):
-                specs.append(G.random_spec('r%d_%d' % (shard, i), rng, maxlen=12))
+                specs.append(G.random_spec('r%d_%d' % (shard, i), rng, maxlen=12, kinds=NATIVE_KINDS))
         for spec in specs:
             cases = plan_cases(spec, rng, params['quick'], mode == 'exhaustive')
             if params.get('expect_only'):
@@ -149,6 +167,12 @@ def _worker(args):
                 if e['action'] == 'run':
                     t2 = 'exit=%d' % e['exit']
                     out['tags'][t2] = out['tags'].get(t2, 0) + 1
+                if res['case']['channel'] == 'api' and res['case']['cmd'] == 'all':
+                    for fn in spec['funcs']:
+                        for b in fn['blocks']:
+                            out['tags']['kind:' + b[0]] = out['tags'].get('kind:' + b[0], 0) + 1
+                    if spec.get('import_error'):
+                        out['tags']['module raises on import'] = out['tags'].get('module raises on import', 0) + 1
                 if nontrivial(res):
                     out['nontrivial'].add(hash((G.render(spec), repr(sorted((k, repr(v)) for k, v in res['case'].items())))))
                 inp = _pack(spec, res)
@@ -181,7 +205,7 @@ def _cli_worker(args):
     try:
         trace = os.path.join(d, 'trace.txt')
         for i in range(count):
-            spec = G.random_spec('c%d_%d' % (shard, i), rng, maxlen=6)
+            spec = G.random_spec('c%d_%d' % (shard, i), rng, maxlen=6, kinds=NATIVE_KINDS)
             style = rng.choice(['google', 'freeform', 'auto'])
             optstr, opts = rng.choice(G.OPTION_SETS)
             cmd = rng.choice(['all', 'all', None, 'list'] + names_for(spec, style, rng, 2))
@@ -268,7 +292,8 @@ def disabled_unit(ctx, corr):
     for i, s in enumerate(srcs):
         ex = doctest_example.DocTest(docsrc=s)
         for j, py in enumerate((False, True)):
-            real = '1' if ex.is_disabled(pytest=py) else '0'
+            # the runner calls `is_disabled()` with the default argument
+            real = '1' if (ex.is_disabled(pytest=True) if py else ex.is_disabled()) else '0'
             m = ans[2 * i + j]
             corr.count('is_disabled')
             corr.tag('is_disabled:%s' % real)
